@@ -102,6 +102,10 @@ func (c *c20Conf) directives(d c20Dirs) string {
 	for ph := 1; ph <= 5; ph++ {
 		p(`SecRule REQUEST_HEADERS:X-Deny "@streq p%d" "id:%d,phase:%d,deny,status:403,log,msg:'denied'"`, ph, 300+ph, ph)
 	}
+	for ph := 1; ph <= 4; ph++ {
+		p(`SecRule REQUEST_HEADERS:X-Engine "@streq off%d" "id:%d,phase:%d,pass,nolog,ctl:ruleEngine=Off"`, ph, 600+ph, ph)
+		p(`SecRule REQUEST_HEADERS:X-Engine "@streq det%d" "id:%d,phase:%d,pass,nolog,ctl:ruleEngine=DetectionOnly"`, ph, 610+ph, ph)
+	}
 	if c.Strict {
 		p(`SecRule REQBODY_ERROR "!@eq 0" "id:400,phase:2,deny,status:400,log,msg:'request body error'"`)
 	} else {
@@ -240,6 +244,9 @@ type c20Opts struct {
 	RmUpload1 bool // delete only the FIRST upload temp file: the remaining ones must still be removed by Close
 	RmSpill   bool // delete the spill file before Close
 	NoRespond bool
+	// Engine: value of the X-Engine request header; "off<P>" / "det<P>" make a phase-P rule switch the rule engine
+	// of this transaction with ctl:ruleEngine (whatever the mode, Close must clean up what the transaction created)
+	Engine string
 }
 
 func c20Build(name, kind string, conf c20Conf, o c20Opts) *c20Scenario {
@@ -250,6 +257,9 @@ func c20Build(name, kind string, conf c20Conf, o c20Opts) *c20Scenario {
 	add(c20Call{Op: "hdr", A: "Host", B: "c20.example"})
 	if o.CT != "" {
 		add(c20Call{Op: "hdr", A: "Content-Type", B: o.CT})
+	}
+	if o.Engine != "" {
+		add(c20Call{Op: "hdr", A: "X-Engine", B: o.Engine})
 	}
 	if o.Deny > 0 {
 		add(c20Call{Op: "hdr", A: "X-Deny", B: fmt.Sprintf("p%d", o.Deny)})
@@ -357,6 +367,14 @@ func c20Scenarios(thorough bool, r *rand.Rand) []*c20Scenario {
 				c20Opts{CT: c20MultipartCT, Body: c20Multipart(sz, km.attack, 20), Chunk: 150}))
 		}
 	}
+	// the rule engine switched by ctl after the uploads were stored (or before the body is read)
+	for _, eng := range []string{"off2", "det2", "off3", "off1", "off4"} {
+		add(c20Build("multipart/off/engine-"+eng+"/2files", "multipart", own(c20Conf{Keep: "Off", MemLimit: 64}),
+			c20Opts{CT: c20MultipartCT, Body: c20Multipart([]int{120, 30}, true, 20), Chunk: 150, Engine: eng}))
+	}
+	add(c20Build("multipart/relevant-nohit/engine-off2/2files", "multipart", own(c20Conf{Keep: "RelevantOnly"}),
+		c20Opts{CT: c20MultipartCT, Body: c20Multipart([]int{120, 30}, false, 20), Chunk: 150, Engine: "off2"}))
+	add(c20Build("spill/engine-off2", "spill", own(c20Conf{MemLimit: 64}), c20Opts{CT: c20FormCT, Body: c20URLEncoded(330, true), Chunk: 100, Engine: "off2", ReadBack: true}))
 	add(c20Build("multipart/nodir/2files", "multipart", c20Conf{MemLimit: 64}, c20Opts{CT: c20MultipartCT, Body: c20Multipart([]int{120, 30}, true, 0), Chunk: 150}))
 	add(c20Build("multipart/strict/2files", "multipart", own(c20Conf{Keep: "Off", Strict: true}), c20Opts{CT: c20MultipartCT, Body: c20Multipart([]int{120, 30}, false, 0), Chunk: 150}))
 
